@@ -80,8 +80,13 @@ def utility_sets(inst, K: int, level: str = "small") -> List[List[dict]]:
         # one header used as hot utility whose level lies within 1 K of TWO generation (cold) levels with different contributions
         [u("HP", "Hot", top, top), u("LPS", "Both", mid_hi, mid_hi, dt=dstep / 2), u("LPgen", "Cold", mid_hi - 0.5, mid_hi - 0.5, dt=0.0),
          u("CW", "Cold", bot, bot)],
+        # a loop entered "the other way round" (a hot-water loop given from its cold end to its hot end, type Both): only one END of it
+        # lies beyond the process range, so it cannot carry the whole duty and a default utility has to close the balance;
+        # and the mirror image on the cold side
+        [u("HTHW", "Both", mid_hi, top + step, dt=dstep / 2), u("CW", "Cold", bot, bot)],
+        [u("HP", "Hot", top, top), u("Brine", "Both", mid_lo, bot - step, dt=dstep / 2)],
     ]
     if level == "large":
-        return sets + large + edge       # indices 0-3 small, 4-7 large, 8-11 edge
-    return sets + edge                   # indices 0-3 small, 4-7 edge
+        return sets + large + edge       # indices 0-3 small, 4-7 large, 8-13 edge
+    return sets + edge                   # indices 0-3 small, 4-9 edge
 
